@@ -184,12 +184,11 @@ def parseEscape (r : List Char) : Option (Char × List Char) :=
       match hex4 t with
       | none => none
       | some (v, t1) =>
-        match isSurrogate v, t1 with
-        | true, '\\' :: 'U' :: t2 =>
-          match hex4 t2 with
+        if !isSurrogate v || !(t1.take 2 == ['\\', 'U']) then (scalar? v).map (·, t1)
+        else
+          match hex4 (t1.drop 2) with
           | none => none
           | some (v2, t3) => (decodePair v v2).map (·, t3)
-        | _, _ => (scalar? v).map (·, t1)
     else if 48 ≤ b.toNat && b.toNat ≤ 51 && t.length ≥ 2 then
       match t with
       | b1 :: b2 :: t' =>
@@ -443,8 +442,12 @@ def quotedBody : List Char → List Esc → List Char
 
 def printQuoted (s : List Char) (es : List Esc) : List Char := '"' :: quotedBody s es ++ ['"']
 
-/-- may a *value* string be written without quotes?  (plist.rs:496 + :332) -/
-def bareOk (s : List Char) : Bool := !s.isEmpty && s.all isAlnum && parseAtom s == .str s
+/-- would `parse_atom` (plist.rs:332) turn the bare word into a number? -/
+def looksNumeric (s : List Char) : Bool := numericOk s && ((parseI64 s).isSome || f64Shape s)
+
+/-- may a *value* string be written without quotes?  Exactly when the tokenizer takes the whole word as
+    one bare word (plist.rs:496) and `parse_atom` leaves it a string. -/
+def bareOk (s : List Char) : Bool := !s.isEmpty && s.all isAlnum && !looksNumeric s
 
 /-- may a dictionary *key* be written without quotes?  (keys are never read as numbers) -/
 def bareKeyOk (s : List Char) : Bool := !s.isEmpty && s.all isAlnum
